@@ -21,32 +21,55 @@ def _covout_env(with_interactions, sigma_none=False):
             "sigma": None if sigma_none else z3.Real("sigma"), "progs": {"p0": z3.Real("out_p0"), "p1": z3.Real("out_p1")}, "baseline": z3.Real("baseline"),
             "_interactions": ({frozenset(["p0", "p1"]): z3.Real("inter_p0p1")} if with_interactions else {}), "imp_interaction": "p0+p1=1.0" if with_interactions else None,
         }
-        return {"self": PyObjV("Covout", source.load("programs"), fields), "DRAW": LArr(1, lambda i: draw), "NONE": None, "draw": draw,
+        return {"self": PyObjV("Covout", source.load("programs"), fields), "DRAW": LArr(1, lambda i: draw), "NONE": None, "draw": draw, "REFRESHED": False,
                 "p0_before": fields["progs"]["p0"], "inter_before": fields["_interactions"].get(frozenset(["p0", "p1"]))}
 
     return make
 
 
+def _mark_refreshed(it, *a, **k):
+    """ghost: Covout.update_outcomes() was called (its own contract -- contracts/covout_cache.py -- says what it establishes)"""
+    it.ghost_env["REFRESHED"] = True
+    it.live_env["REFRESHED"] = True
+    return None
+
+
 for _name, _wi, _sn in (("no_interactions", False, False), ("explicit_interactions", True, False), ("no_uncertainty", True, True)):
     CONTRACTS["programs:Covout.sample#%s" % _name] = dict(
-        schema=schema, make_env=_covout_env(_wi, _sn), call_stubs={"np.random.randn": "DRAW", "self.update_outcomes": "NONE"},
-        ensures=[("C17.every_valid_covout_can_be_sampled", "True")] + ([("C17.no_uncertainty_leaves_outcomes_unchanged", "self.progs['p0'] == p0_before")] if _sn else [("C17.outcome_is_perturbed_by_sigma_times_draw", "self.progs['p0'] == p0_before + self.sigma * draw")]),
-        raises={}, defined_props=["C17"], raises_props=["C17"])
+        schema=schema, make_env=_covout_env(_wi, _sn), call_stubs={"np.random.randn": "DRAW", "self.update_outcomes": _mark_refreshed},
+        ensures=[("C17.every_valid_covout_can_be_sampled", "True")] + ([("C17.no_uncertainty_leaves_outcomes_unchanged", "self.progs['p0'] == p0_before")] if _sn else [("C17.outcome_is_perturbed_by_sigma_times_draw", "self.progs['p0'] == p0_before + self.sigma * draw"),
+                                                      # the model reads the CACHED outcomes (get_outcome): a perturbed value that is not followed by a refresh is never used
+                                                      ("C17.outcome_cache_is_refreshed_after_the_perturbation", "REFRESHED")]),
+        raises={}, defined_props=["C17"], raises_props=["C17"], with_interactions=_wi, sigma_none=_sn)
 
 
 def _replay_covout(model, contract):
-    """replay on a REAL Covout built like a program book row with an explicit interaction outcome"""
+    """replay on a REAL Covout built like a program book row (with or without an explicit interaction outcome, with or without
+    uncertainty): sample() runs with a fixed draw, then the perturbed outcomes must be the ones the outcome cache holds"""
     import numpy as np
     import atomica.programs as ap
 
-    cv = ap.Covout(par="par", pop="pop", progs={"p0": 0.5, "p1": 0.7}, cov_interaction="additive", imp_interaction="p0+p1=0.9", uncertainty=0.1, baseline=0.2)
+    wi, sn = contract["with_interactions"], contract["sigma_none"]
+    cv = ap.Covout(par="par", pop="pop", progs={"p0": 0.5, "p1": 0.7}, cov_interaction="additive", imp_interaction=("p0+p1=0.9" if wi else None), uncertainty=(None if sn else 0.1), baseline=0.2)
     before = dict(cv.progs)
+    pre = dict(progs=before, imp_interaction=("p0+p1=0.9" if wi else None), uncertainty=(None if sn else 0.1), draw=0.5)
+    real_randn = np.random.randn
+    np.random.randn = lambda *shape: np.full(shape if shape else (1,), 0.5)
     try:
-        np.random.seed(1)
         cv.sample()
     except Exception as e:
-        return dict(verdict="violates", detail="Covout.sample() on a covout with an explicit interaction outcome raised %s: %s" % (type(e).__name__, e), prestate=dict(progs=before, imp_interaction="p0+p1=0.9", uncertainty=0.1))
-    return dict(verdict="holds", detail="Covout.sample() completed; imp_interaction is now %r" % cv.imp_interaction, prestate=dict(progs=before))
+        return dict(verdict="violates", detail="Covout.sample() raised %s: %s" % (type(e).__name__, e), prestate=pre)
+    finally:
+        np.random.randn = real_randn
+    bad = []
+    shift = 0.0 if sn else 0.1 * 0.5
+    for k in before:
+        if abs(cv.progs[k] - (before[k] + shift)) > 1e-12:
+            bad.append("outcome of %s is %r, expected %r" % (k, cv.progs[k], before[k] + shift))
+    cached = dict(cv._cached_progs)
+    if any(abs(cached[k] - cv.progs[k]) > 1e-12 for k in cv.progs):
+        bad.append("the outcome cache still holds %r while the sampled outcomes are %r: the simulation would use the unperturbed values" % (cached, dict(cv.progs)))
+    return dict(verdict="violates" if bad else "holds", detail="; ".join(bad) or "sampled outcomes %r are the cached ones" % dict(cv.progs), prestate=pre)
 
 
 for _c in CONTRACTS.values():
